@@ -54,6 +54,10 @@ impl StdRng {
     { unimplemented!() }
 }
 pub struct Mutex<T> { pub id: Ghost<int>, pub p: core::marker::PhantomData<T> }
+impl<T> Mutex<T> {
+    /// a new mutex is a new object: distinct from every existing one
+    #[verifier::external_body] pub fn new(v: T) -> (r: Self) { unimplemented!() }
+}
 #[verifier::external_body]
 pub fn vx_lock<'a>(m: &'a Arc<Mutex<StdRng>>) -> (r: &'a mut StdRng) { unimplemented!() }
 /// E: ErrorInjector<Req, Err> by the contract of its two implementations (NoErrorInjection: rate 0.0, never injects;
@@ -73,6 +77,10 @@ impl<Req, E> Injector<Req, E> {
 pub struct ChaosConfig<Req, E> { pub name: Name, pub error_injector: Injector<Req, E>, pub latency_rate: f64, pub min_latency: Duration, pub max_latency: Duration, pub seed: Option<u64>, pub event_listeners: EventListeners }
 pub struct Chaos<Req, Res, E> { pub inner: Inner<Req, Res, E>, pub config: Arc<ChaosConfig<Req, E>>, pub rng: Arc<Mutex<StdRng>> }
 
+impl<Req, E> ChaosConfig<Req, E> {
+    /// create_rng: a generator freshly seeded from config.seed (restarts the decision stream)
+    #[verifier::external_body] pub fn create_rng(&self) -> (r: StdRng) ensures r.pos@ == 0 { unimplemented!() }
+}
 impl<Req, Res, E> Chaos<Req, Res, E> {
     pub fn clone(&self) -> (r: Self)
         ensures r.rng == self.rng && r.config == self.config,   // #clones_share_the_seeded_generator [C19]
